@@ -239,11 +239,34 @@ pub fn run_c15(ctx: &mut Ctx) {
         },
         |m| json!({"string": mutfen_string(m)}),
     );
+    // a small enumerated family of degenerate inputs (terminators, empties, separators only)
+    let specials: Vec<String> = {
+        let atoms = ["", "\n", "\r", "\r\n", " ", "\t", "/", "-", "w", "0", "8", "k", "\u{feff}", "\u{2028}"];
+        let mut v: Vec<String> = atoms.iter().map(|s| s.to_string()).collect();
+        for a in atoms {
+            for b in atoms {
+                v.push(format!("{}{}", a, b));
+            }
+        }
+        for f in ["8/8/8/8/8/8/8/8 w - - 0 1", "rnbqkbnr/pppppppp/8/8/8/8/PPPPPPPP/RNBQKBNR w KQkq - 0 1"] {
+            for t in ["\n", "\r\n", "\r", "\n\n", " ", " \n"] {
+                v.push(format!("{}{}", f, t));
+                v.push(format!("{}{}", t, f));
+            }
+        }
+        v
+    };
+    let sp = std::sync::Arc::new(specials);
+    let sp2 = sp.clone();
+    run_enum(ctx, "degenerate_strings_enumerated", sp.len() as u64, true, move |i, st| {
+        st.nontrivial_by_construction += 1;
+        c15_string(&sp[i as usize], st)
+    }, move |i| json!({"string": sp2[i as usize]}));
     // CLI front end, black-box, on generated strings the loader rejects
     let n_cli = t.pick(600, 6000) as usize;
     let mut strings: Vec<String> = generate_values(&six_fields(), ctx.seed ^ 0xC15, n_cli / 2);
     strings.extend(generate_values(&mutfen_strategy(4), ctx.seed ^ 0xC15C, n_cli / 2).iter().filter_map(mutfen_string));
-    strings.extend(["", " ", "-", "--help-me", "a b c d e f", "8/8/8/8/8/8/8/8 w - ax 0 1", "8/8/8/8/8/8/8/8 w - é 0 1", "rnbqkbnr/pppppppp/8/8/8/8/PPPPPPPP/RNBQKBNR w KQkq - 0 300x"].iter().map(|s| s.to_string()));
+    strings.extend(["\n", "\r\n", "\r", "\n\n", "x\n", "", " ", "-", "--help-me", "a b c d e f", "8/8/8/8/8/8/8/8 w - ax 0 1", "8/8/8/8/8/8/8/8 w - é 0 1", "rnbqkbnr/pppppppp/8/8/8/8/PPPPPPPP/RNBQKBNR w KQkq - 0 300x"].iter().map(|s| s.to_string()));
     // long and densely multi-byte inputs: any byte offset at which a front end might cut or index
     // the echoed input falls inside a character for some of them
     strings.extend(generate_values(&"\\PC{24,110}", ctx.seed ^ 0xC15D, n_cli / 6));
